@@ -49,12 +49,10 @@ Lemma topic_str_inj : forall name a b, topic_str name a = topic_str name b -> a 
 Proof.
   intros name a b H. unfold topic_str in H.
   apply append_inv_head in H. apply (append_inv_head "-") in H.
-  destruct a as [x| |]; destruct b as [y| |]; cbn [topic_suffix] in H; try reflexivity; try discriminate.
+  destruct a as [x| | |ca]; destruct b as [y| | |cb]; cbn [topic_suffix] in H; try reflexivity; try discriminate;
+    try (apply itoa_first_numchar in H; discriminate); try (symmetry in H; apply itoa_first_numchar in H; discriminate).
   - f_equal. now apply itoa_inj.
-  - apply itoa_first_numchar in H. discriminate.
-  - apply itoa_first_numchar in H. discriminate.
-  - symmetry in H. apply itoa_first_numchar in H. discriminate.
-  - symmetry in H. apply itoa_first_numchar in H. discriminate.
+  - apply (append_inv_head "connector-source-") in H. apply itoa_inj in H. f_equal. lia.
 Qed.
 
 Lemma topics_disjoint : forall name s s',
